@@ -1,7 +1,7 @@
 (* Arith/Options.v — C19: what the writers do with every public option field.
    Definitions only; proofs are in OptionsProofs.v.
 
-   Sources (hasenbanck/lzma-rust2, after repo-patches/03..07):
+   Sources (hasenbanck/lzma-rust2 at /repo b79b239, i.e. with the fixes ac4c103..b79b239 = repo-patches/03..08):
      src/enc/lzma2_writer.rs  LZMAOptions (public fields), get_props, validate, LZMA2Writer::new/write/finish
      src/enc/lzma_writer.rs   LZMAWriter::new / new_use_header / new_no_header
      src/enc/encoder.rs       LZMAEncoder::new, LiteralEncoder::new, LengthEncoder::new
